@@ -29,10 +29,10 @@ func (k *Key) Encode() []byte {
 
 // Decode decodes the key.
 func DecodeKey(b []byte) (*Key, error) {
-	if len(b) < 8 {
+	i, n := binary.Varint(b)
+	if n <= 0 {
 		return nil, ErrCorruptedData
 	}
-	i, n := binary.Varint(b)
 	return &Key{Name: string(b[n:]), Expiration: i}, nil
 }
 
